@@ -369,6 +369,73 @@ CLAIMED["C13"] = dict(
 NOT_YET = "check not built yet in this round (planned: DESIGN.md §3); no claim is made"
 
 
+
+# ---- session-3 extensions: what was added to the entries above -----------------------------------------------------------------
+def _ext(cid, text, note, technique=None, replace_note=None):
+    e = CLAIMED[cid]
+    e["text"] += " " + text
+    if replace_note:
+        for old, new in replace_note:
+            e["note"] = e["note"].replace(old, new)
+    e["note"] += " " + note
+    if technique:
+        e["technique"] += " + " + technique
+
+
+_ext("C06",
+     "Session 3: parallel_scan proved on a small-step task protocol (start_scan, finish_scan, sum_node, final_sum; stealing nondeterministic at every "
+     "task, any execution order): each element gets exactly one final-pass visit with the in-order reduction of everything to its left, no pre-scan "
+     "after a final scan; the coded quick-sort partition loop is proved in bounds for every irreflexive asymmetric comparator and correct for every "
+     "strict weak ordering; the deterministic-reduce tree is a function of (range, grain, divisor) for all sizes.",
+     "static_partitioner's divisor is the arena's max_concurrency(): the tree differs across arena concurrencies (known finding, proved and reproduced). "
+     "std::sort on leaves is assumed correct.",
+     "statement skeleton of the scan protocol regenerated from source + lazy-placement replay of real event logs + comparison-trace differential under ASan",
+     [("static_partitioner term proved for n<65536, divisor<=64 (exact binary32).", "static_partitioner theorems for divisor < 2^24, range < 2^64 (binary32 split imported from C05).")])
+_ext("C08",
+     "Session 3: queuing_rw_mutex is modelled at the level of its atomic accesses for any number of threads (110 program counters, the code's own words); "
+     "a kernel-checked inductive invariant yields writer exclusion, no null/tagged dereference, queue order / no overtaking, truthful non-blocking "
+     "try_acquire and atomic downgrade for every schedule of programs without upgrade_to_writer; rtm_rw_mutex's write_flag protocol is modelled with "
+     "abstract transactions and proved to keep speculative readers / writers away from real holders. Every run replays the real access traces on the "
+     "models, explores small configurations exhaustively, regenerates source-order facts and checks happens-before between critical sections under the "
+     "memory orders the code passes (all mutex types, every acquisition path).",
+     "upgrade_to_writer paths: replayed and explored for small configurations only, not covered by the inductive invariant; speculative (RTM) paths tied by "
+     "source-text facts (the harness forces the real path).",
+     "generated per-(clause, pc) invariant-preservation proofs + bounded exhaustive exploration + vector-clock happens-before monitor + regenerated source facts decided in Lean",
+     [("PARTIAL: queuing_rw_mutex's internal node protocol is not modelled (spec-level validation + exploration); RTM variants run only their fall-back path here.", "")])
+_ext("C09",
+     "Session 3: the page life cycle of micro_queue (allocation, linking under page_mutex, retirement, deallocation after head_counter is published, element "
+     "construction / destruction) is proved safe for all schedules of any number of producers and consumers on an access-level lane model; the "
+     "non-concurrent operations (copy, move, assign, swap, clear, iteration, set_capacity, size) refine the abstract FIFO.",
+     "Page theorems hold while no page allocation failed (closed witnesses for the rest); page-level clear / copy are sampled, not proved; set_capacity does not "
+     "wake blocked pushers (known finding).",
+     "page-level access-log replay + quarantining allocator + happens-before monitor + sequential differential with a page ledger")
+_ext("C15",
+     "Session 3: buffer / queue / sequencer / priority_queue nodes are modelled per aggregator batch as coded (regenerated try_forwarding switch, forwarder_busy "
+     "epilogue, offer loop, pull-mode flips) and join_node_base with rejection and re-try for every number of ports; batches are linearizable in list order, "
+     "the node contracts hold across arbitrary sequences of batches and successor behaviours, an accepted item is not left without a forwarder (under the "
+     "skeleton's ok predicate), sequence numbers up to 2^62 with the regenerated size_t index expressions.",
+     "Known finding: the sequencer's switch assigns try_forwarding, so a rejected put withdraws the forwarding request of an accepted one in the same batch "
+     "(proved witness, reproduced on the real node). Priority-queue batch linearizability only as dominance.",
+     "regenerated switch skeleton with ok-predicate theorems instantiated by decide + forced multi-operation batches on the real aggregator",
+     [("Atomicity of a node operation rests on the aggregator (C13) / node mutex, not re-proved here.", "The aggregator's serialisation is the single imported hypothesis (C13 proves it of the same _aggregator.h); limiter / overwrite atomicity rests on their mutex.")])
+_ext("C18",
+     "Session 3: the back end's failure ladder is proved clean and recoverable under an adversarial raw-memory oracle on C17's per-operation back-end model "
+     "(failure_is_clean, recovery, no_partial_region, large-object failure), pools are proved to stay inside, and to return exactly once, the raw memory their own "
+     "callback granted (also when raw-free reports errors), fixed pools make one raw call; the guards of pool_create, pool aligned entry points, realloc copy length "
+     "and the C++ allocators are regenerated and proved exact.",
+     "C17's ghost flag skip is an escape clause of the recovery theorems; large-object cache rungs, concurrent callers and start-up failure are sampled only. Two known "
+     "findings in cache_aligned_allocator / tbb_allocator / cache_aligned_resource.",
+     "inductive frame / invariant proofs over the back-end model + white-box differential with a scripted oracle",
+     [("The back-end retry ladder is explored, not modelled.", "")])
+_ext("C19",
+     "Session 3: the collaborative part of collaborative_call_once (stack-published runner with pointer + reference-count word, incarnations / ABA, lifetime guards, "
+     "destructor wait, helpers executing inner tasks only inside assist() of the live runner, isolation) is proved memory-safe and complete for every schedule up to the "
+     "exact caller bound 128; ETS storage with throwing initialisers / failing allocation: exactly one successful initialiser call per thread, truthful exists, "
+     "retry after a failure, stable addresses (instance of C11).",
+     "Two known findings (after a throwing initialiser the never-constructed element stays visible to size(), iteration and combine; elements beyond a failed allocation "
+     "are invisible). flattened2d is differential only.",
+     "projection-based extension (Collab projects onto Once) + generated statement skeleton and memory orders + poison-after-scope monitor + happens-before recomputation")
+
 def main():
     checks = []
     for pid in ALL:
